@@ -75,7 +75,7 @@ func negativeTwin(ev string) string {
 }
 
 func checkC10(c *Ctx) {
-	c.Rule = "two key-generation rounds with the same participants run concurrently on one board (one message per poll, snapshot after every step), each followed by a signing batch. For every (genuine message g by participant P, consuming node) pair, in the exact state in which the node awaits it: (a) every other participant S posts the same payload - and the phase's failure event naming P - under its own name and signature: nothing recorded for P and not the round state may change; (b) the counterpart message of the other round (same sender, same event) is re-posted under this round's id, and g itself is re-posted under every other event name: must be rejected without any change. distinct = distinct (family, event, state) cases"
+	c.Rule = "two key-generation rounds with the same participants run concurrently on one board (one message per poll, snapshot after every step), each followed by a signing batch. For every (genuine message g by participant P, consuming node) pair, in the exact state in which the node awaits it: (a) every other participant S posts the same payload - and the phase's failure event naming P - under its own name and signature: nothing recorded for P and not the round state may change; (b) the counterpart message of the other round (same sender, same event) is re-posted under this round's id, and g itself is re-posted under every other event name: must be rejected without any change. (b5/b6) the cross-event replays are repeated in every later state of the round and right after the node consumed the genuine message (finding keys tell replays before and after the genuine one apart). (b7) a stranger's own round (the participants' names registered with her key) posting signature broadcasts that name a real round: nothing in the real rounds may change. distinct = distinct (family, event, state) cases"
 	c.Assumptions = []string{"MemState substituted for LevelDB", "re-posted messages keep their genuine signature (it covers the payload bytes)"}
 	cfgs := []ntCase{{3, 2}, {2, 2}}
 	if c.Thorough() {
@@ -457,6 +457,61 @@ func runC10(c *Ctx, n, t int, seed uint64) {
 					}
 				}
 			}
+		}
+	}
+	// (b7) a stranger opens a round of her own in which the participants' NAMES are registered with HER key
+	// (the opening proposal is not authenticated), then speaks on that round: signature broadcasts whose
+	// payload names a real round, answers, error reports. Whatever she is entitled to inside her own round,
+	// nothing recorded in the real rounds (rounds, operations, signature stores) may change.
+	if len(rec.Moments) > 0 && len(openers) > 0 {
+		last := rec.Moments[len(rec.Moments)-1]
+		_, spriv, _ := ed25519.GenerateKey(sched.Derive(7, 7)) // the key strangerProposal registers
+		for v, nd := range w.Nodes {
+			nd.Mem.Restore(last.Snaps[v])
+			sp := strangerProposal(openers[0])
+			x := fmt.Sprintf("%064x", 0xC10B7+v)
+			sp.DkgRoundID = x
+			func() {
+				defer func() { _ = recover() }()
+				_ = nd.Svc.ProcessMessage(sp)
+			}()
+			w.Board.Truncate(len(all))
+			if NodeState(nd, x) == "" {
+				c.Add("stranger_rounds_refused", 1)
+				continue
+			}
+			before := nd.Mem.Snapshot()
+			for _, rd := range []string{ra, rb} {
+				for batch, msgs := range SigStore(nd, rd) {
+					for _, victim := range w.Nodes {
+						var forged []map[string]interface{}
+						for mid := range msgs {
+							forged = append(forged, map[string]interface{}{"File": "f", "BatchID": batch, "MessageID": mid, "SrcPayload": []byte("stranger"), "Signature": []byte("not a signature, 96 bytes would not make it one"), "Username": victim.Name, "DKGRoundID": rd})
+						}
+						m := storage.Message{ID: "b7", DkgRoundID: x, Event: EvSigRecon, Data: mkReq(forged), SenderAddr: victim.Name}
+						m.Signature = ed25519.Sign(spriv, m.Bytes())
+						nd.Mem.Restore(before)
+						var pan interface{}
+						func() {
+							defer func() { pan = recover() }()
+							_ = nd.Svc.ProcessMessage(m)
+						}()
+						after := nd.Mem.Snapshot()
+						w.Board.Truncate(len(all))
+						c.Eval(1)
+						c.Distinct(fmt.Sprintf("stranger-round|signature-broadcast-naming-a-real-round|%s", NodeState(nd, rd)))
+						c.Add("stranger_round_messages_naming_a_real_round", 1)
+						if pan != nil {
+							c.Add("panics_seen_(judged_by_C18)", 1)
+							continue
+						}
+						if pd := protectedDiff(before, after, x); len(pd) > 0 {
+							c.Violate("C10/message-authenticated-in-one-round-changed-another", fmt.Sprintf("a signature broadcast on round %s (a stranger's round in which %q is registered with her key), whose payload names round %s, changed %v on %s", trunc(x, 8), victim.Name, trunc(rd, 8), pd, nd.Name), map[string]interface{}{"n": n, "t": t, "node": nd.Name, "claimed_participant": victim.Name, "real_round": rd, "batch": batch})
+						}
+					}
+				}
+			}
+			nd.Mem.Restore(last.Snaps[v])
 		}
 	}
 	c.Sample(map[string]interface{}{"n": n, "t": t, "board_len": len(all), "moments": len(rec.Moments), "pairs": len(done)})
